@@ -313,6 +313,14 @@ Lemma SchedLaw_new : SchedLaw new. Proof. unfold new. sl. Qed.
 Lemma FaultLaw_read_chunk dec k mx : FaultLaw (read_chunk dec k mx). Proof. unfold read_chunk. fl. Qed.
 Lemma SchedLaw_read_chunk dec k mx : SchedLaw (read_chunk dec k mx). Proof. unfold read_chunk. sl. Qed.
 
+(* the loop of read_frame that steps over the chunks between two ANMF chunks: induction on its fuel *)
+Lemma FaultLaw_skip_to_anmf fuel : forall nfs, FaultLaw (skip_to_anmf fuel nfs).
+Proof. induction fuel as [|fuel IH]; intros nfs; cbn [skip_to_anmf]; fl; apply IH. Qed.
+Lemma SchedLaw_skip_to_anmf fuel : forall nfs, SchedLaw (skip_to_anmf fuel nfs).
+Proof. induction fuel as [|fuel IH]; intros nfs; cbn [skip_to_anmf]; sl; apply IH. Qed.
+#[export] Hint Resolve FaultLaw_skip_to_anmf : flaw.
+#[export] Hint Resolve SchedLaw_skip_to_anmf : slaw.
+
 Lemma FaultLaw_read_frame_header w h nfs : FaultLaw (read_frame_header w h nfs).
 Proof. unfold read_frame_header. fl. Qed.
 Lemma SchedLaw_read_frame_header w h nfs : SchedLaw (read_frame_header w h nfs).
